@@ -18,6 +18,8 @@ from mc import findings
 def work(g):
     Stats.MAXV = 10 ** 9
     Stats.NOCAP = True
+    import mc.stats
+    mc.stats.CURRENT_PID = None
     out = c17.run_group(g, "quick")
     return [(findings.c17_category(v), findings.c17_digest(v)) for v in out.violations if findings.c17_category(v)]
 
